@@ -164,6 +164,24 @@ def run(prop: str, tier: str, seed: int) -> int:
             else:
                 failures.append({"id": f"C06/BaseRule.{ob['clause']}", "cfg": "BaseRule", "clause": ob["clause"], "shape": {}, "cases": [],
                                  "detail": ob["detail"], "witness": None, "labels": ob.get("labels", [])})
+    # ---------------- C02: the induction behind the additive ancestor segment (balanced move)
+    if prop == "C02":
+        from .segment_lemma import run_lemma
+
+        lr = run_lemma(REPO)
+        for e in lr["errors"]:
+            R.undecided.append(e)
+        for ob in lr["obligations"]:
+            n_obl += 1
+            backends["z3-api"] += 1
+            funcs.add("AddExpression.evaluate (additive-segment lemma)")
+            if ob["ok"]:
+                n_ok += 1
+            elif ob.get("unknown"):
+                R.undecided.append(f"C02/{ob['clause']}: solver undecided")
+            else:
+                failures.append({"id": f"C02/{ob['clause']}", "cfg": "additive-segment-lemma", "clause": ob["clause"], "shape": {}, "cases": [],
+                                 "detail": ob["detail"], "witness": None, "labels": ob.get("labels", [])})
     # ---------------- C07: the contract of clone / clone_from_root that the frame argument relies on
     if prop == "C07":
         from pyvc.explore import explore as _explore
@@ -326,6 +344,7 @@ def run(prop: str, tier: str, seed: int) -> int:
         "paths_per_configuration": dict(per_cfg_paths),
         "applicable_paths_per_configuration": dict(per_cfg_app),
         "functions_under_contract": FUNCTIONS,
+        "lemmas": (["additive ancestor segment (value(top) = value(hole) + k through a chain of additions): induction base + step on either operand side, step discharged on the real AddExpression.evaluate/operate (checks/segment_lemma.py)"] if prop == "C02" else []),
         "samples": samples,
         "traces_validated_against_impl": validated + int(diff_summary.get("agree", 0) or 0),
         "concolic_paths_replayed_on_cpython": validated,
